@@ -152,6 +152,29 @@ func VerifC02_Nesting(dir, node, pos, kind int) {
 	}
 	verifReach("accepted")
 	verifAssert("XML and binary decoders give the same value", vfEqual(vb, vx))
+	// C18 for typed targets through the text encodings (lenient decoding): what
+	// was accepted re-encodes to a fixed point
+	for _, enc := range []int{1, 2} {
+		var e1 []byte
+		if enc == 1 {
+			e1 = append([]byte(nil), ttlv.MarshalXML(vx.Addr().Interface())...)
+		} else {
+			e1 = append([]byte(nil), ttlv.MarshalJSON(vx.Addr().Interface())...)
+		}
+		v2, err2 := c02DecodeAs(dir, enc, e1)
+		verifAssert("re-encoding of the accepted message decodes again", err2 == nil)
+		if err2 != nil {
+			continue
+		}
+		verifAssert("same value after the re-encoding", vfEqual(vx, v2))
+		var e2 []byte
+		if enc == 1 {
+			e2 = ttlv.MarshalXML(v2.Addr().Interface())
+		} else {
+			e2 = ttlv.MarshalJSON(v2.Addr().Interface())
+		}
+		verifAssert("second re-encoding is byte-identical", verifBytesEq(e1, e2))
+	}
 	// nothing from inside the unknown element may surface in the message: its
 	// children carry the values 5 (as a BatchCount) and "intruder"
 	if kind == 6 {
